@@ -30,21 +30,21 @@ Definition trk0 : trk := mkTrk MIN_DT 0.
 
 Inductive tsd :=
 | Leaf (k : trk) (v : Z)
-| Fix (k : trk) (kids : list tsd)
+| Fix (k : trk) (fk : Z) (bits : Z) (kids : list tsd)   (* fk: 1 = TSB, 2 = TSL; bits: the TSB value's field-valid bits *)
 | Dict (k : trk) (elem : shape) (kids : list (Z * tsd)).   (* live keys, sorted by key *)
 
 Fixpoint init (s : shape) : tsd :=
   match s with
   | STS => Leaf trk0 0
-  | STSB fs => Fix trk0 (map init fs)
-  | STSL n e => Fix trk0 (repeat (init e) n)
+  | STSB fs => Fix trk0 1 0 (map init fs)
+  | STSL n e => Fix trk0 2 0 (repeat (init e) n)
   | STSD e => Dict trk0 e []
   end.
 
 Definition tracking (s : tsd) : trk :=
-  match s with Leaf k _ => k | Fix k _ => k | Dict k _ _ => k end.
+  match s with Leaf k _ => k | Fix k _ _ _ => k | Dict k _ _ => k end.
 Definition set_tracking (k : trk) (s : tsd) : tsd :=
-  match s with Leaf _ v => Leaf k v | Fix _ c => Fix k c | Dict _ e c => Dict k e c end.
+  match s with Leaf _ v => Leaf k v | Fix _ f b c => Fix k f b c | Dict _ e c => Dict k e c end.
 Definition lmt_of (s : tsd) : Z := lmt (tracking s).
 Definition ncnt_of (s : tsd) : Z := ncnt (tracking s).
 
@@ -76,9 +76,13 @@ Fixpoint mask_from (i : nat) (pl : Z) (kids : list tsd) : Z :=
 Definition delta_mask (s : tsd) : Z :=
   match s with
   | Leaf _ v => v
-  | Fix k kids => mask_from 0 (lmt k) kids
+  | Fix k _ _ kids => mask_from 0 (lmt k) kids
   | Dict _ _ _ => -1
   end.
+
+(* mark_tsb_value_field_valid: only a TSB's value carries per-field validity bits *)
+Definition set_bit (fk : Z) (n : nat) (bits : Z) : Z :=
+  if fk =? 1 then Z.lor bits (Z.shiftl 1 (Z.of_nat n)) else bits.
 
 (* ------------------------------------------------------------------ navigation *)
 Definition path := list Z.
@@ -107,7 +111,7 @@ Fixpoint get (p : path) (s : tsd) : option tsd :=
   | i :: p' =>
     match s with
     | Leaf _ _ => None
-    | Fix _ kids => match zidx i with
+    | Fix _ _ _ kids => match zidx i with
                     | Some n => match nth_error kids n with Some c => get p' c | None => None end
                     | None => None end
     | Dict _ _ kids => match dict_find i kids with Some c => get p' c | None => None end
@@ -144,7 +148,7 @@ Fixpoint at_path (f : tsd -> res) (t : Z) (p : path) (s : tsd) : res :=
   | i :: p' =>
     match s with
     | Leaf _ _ => mkRes s false false 3
-    | Fix k kids =>
+    | Fix k fk bits kids =>
       match zidx i with
       | None => mkRes s false false 3
       | Some n =>
@@ -153,7 +157,7 @@ Fixpoint at_path (f : tsd -> res) (t : Z) (p : path) (s : tsd) : res :=
         | Some c =>
           let r := at_path f t p' c in
           let '(k', up') := notify_parent t (r_up r) k in
-          mkRes (Fix k' (set_nth n (r_tree r) kids)) up' (r_flag r) (r_err r)
+          mkRes (Fix k' fk (if r_up r then set_bit fk n bits else bits) (set_nth n (r_tree r) kids)) up' (r_flag r) (r_err r)
         end
       end
     | Dict k e kids =>
@@ -183,19 +187,30 @@ Fixpoint inv_tree (t : Z) (s : tsd) : tsd * bool * bool :=
   if lmt_of s =? MIN_DT then (s, false, false) else
   match s with
   | Leaf k v => (Leaf (mkTrk MIN_DT (ncnt k + 1)) v, true, true)
-  | Dict k e kids => (Dict (mkTrk MIN_DT (ncnt k + 1)) e kids, true, true)
-  | Fix k kids =>
-    let fix go (k : trk) (l : list tsd) : trk * list tsd :=
+  | Dict k e kids =>
+    let fix go (k : trk) (l : list (Z * tsd)) : trk * list (Z * tsd) :=
       match l with
       | [] => (k, [])
-      | c :: r =>
+      | (key, c) :: r =>
         let '(c', up, _) := inv_tree t c in
         let '(k1, _) := notify_parent t up k in
         let '(k2, r') := go k1 r in
-        (k2, c' :: r')
+        (k2, (key, c') :: r')
       end in
     let '(k', kids') := go k kids in
-    (Fix (mkTrk MIN_DT (ncnt k' + 1)) kids', true, true)
+    (Dict (mkTrk MIN_DT (ncnt k' + 1)) e kids', true, true)
+  | Fix k fk bits kids =>
+    let fix go (n : nat) (k : trk) (bits : Z) (l : list tsd) : trk * Z * list tsd :=
+      match l with
+      | [] => (k, bits, [])
+      | c :: r =>
+        let '(c', up, _) := inv_tree t c in
+        let '(k1, _) := notify_parent t up k in
+        let '(k2, bits2, r') := go (S n) k1 (if up then set_bit fk n bits else bits) r in
+        (k2, bits2, c' :: r')
+      end in
+    let '(k', bits', kids') := go 0%nat k bits kids in
+    (Fix (mkTrk MIN_DT (ncnt k' + 1)) fk bits' kids', true, true)
   end.
 
 Definition op_inv (t : Z) (s : tsd) : res :=
@@ -211,24 +226,24 @@ Fixpoint copy_from (t : Z) (vt : vtree) (s : tsd) : tsd * bool * Z :=
   match vt, s with
   | VAbs, _ => (s, false, 0)
   | VLeaf v, Leaf k _ => (Leaf k v, negb (lmt k =? t), 0)
-  | VFix vs, Fix k kids =>
-    let fix go (vs : list vtree) (l : list tsd) : list tsd * bool * Z :=
+  | VFix vs, Fix k fk bits kids =>
+    let fix go (n : nat) (bits : Z) (vs : list vtree) (l : list tsd) : list tsd * Z * bool * Z :=
       match vs, l with
       | v :: vr, c :: r =>
         match v with
-        | VAbs => let '(r', n, e) := go vr r in (c :: r', n, e)
+        | VAbs => let '(r', b, nw, e) := go (S n) bits vr r in (c :: r', b, nw, e)
         | _ =>
           let '(c1, newly, e1) := copy_from t v c in
-          if negb (e1 =? 0) then (c1 :: r, false, e1) else
+          if negb (e1 =? 0) then (c1 :: r, bits, false, e1) else
           if newly then
             let '(k', ok) := rec_mod t (tracking c1) in
-            if ok then let '(r', _, e) := go vr r in (set_tracking k' c1 :: r', true, e)
-            else (c1 :: r, false, 2)
-          else let '(r', n, e) := go vr r in (c1 :: r', n, e)
+            if ok then let '(r', b, _, e) := go (S n) (set_bit fk n bits) vr r in (set_tracking k' c1 :: r', b, true, e)
+            else (c1 :: r, bits, false, 2)
+          else let '(r', b, nw, e) := go (S n) bits vr r in (c1 :: r', b, nw, e)
         end
-      | _, _ => (l, false, 0)
+      | _, _ => (l, bits, false, 0)
       end in
-    let '(kids', newly, e) := go vs kids in (Fix k kids', newly, e)
+    let '(kids', bits', newly, e) := go 0%nat bits vs kids in (Fix k fk bits' kids', newly, e)
   | _, _ => (s, false, 1)
   end.
 
@@ -255,7 +270,7 @@ Definition op_erase (t key : Z) (s : tsd) : res :=
   | Dict k e kids =>
     match dict_find key kids with
     | Some _ => let '(k', up) := rec_mod t k in mkRes (Dict k' e (dict_del key kids)) up true 0
-    | None => mkRes s false false 0
+    | None => let '(k', up) := rec_mod t k in mkRes (Dict k' e kids) up false 0   (* touch_impl: a no-op erase still marks *)
     end
   | _ => mkRes s false false 1
   end.
@@ -428,20 +443,40 @@ Fixpoint parse_cons (w : wire) : list cons :=
 Definition obs_line (who t : Z) (p : path) (vld md : bool) (l v : Z) (hd : bool) (dv : Z) : line :=
   [20; who; t; Z.of_nat (length p)] ++ p ++ [b2z vld; b2z md; l; v; b2z hd; dv].
 
-(* producer-side and below-the-root reads: straight from the data *)
-Fixpoint read_tree (fuel : nat) (who t : Z) (p : path) (s : tsd) : wire :=
+(* Reads.  [link] is the time of the consumer's link (None for the producer-side view);
+   [root] says whether this position is the link's own root (only there do last_modified_time and
+   modified blend the link's tracking).  TSInputView::delta_value: at EVERY position of a
+   target link, when link.tracking.last_modified_time > data.last_modified_time() the "delta"
+   handed back is value().  *)
+Definition sampled_dv (x : tsd) : Z :=
+  match x with Leaf _ v => v | Fix _ fk bits _ => if fk =? 1 then bits else -2 | Dict _ _ _ => -2 end.
+
+Definition node_line (who t : Z) (p : path) (link : option Z) (root : bool) (x : tsd) : line :=
+  match link with
+  | None =>
+    let rd := delta_readable t x in
+    obs_line who t p (valid x) (modified t x) (lmt_of x) (value_of x) rd (if rd then delta_mask x else 0)
+  | Some lk =>
+    let sampled := lmt_of x <? lk in
+    let rd := sampled || delta_readable t x in
+    let dv := if sampled then sampled_dv x else if rd then delta_mask x else 0 in
+    let md := if root then negb (t =? MIN_DT) && ((lk =? t) || (lmt_of x =? t)) else modified t x in
+    let l := if root then Z.max lk (lmt_of x) else lmt_of x in
+    obs_line who t p (valid x) md l (value_of x) rd dv
+  end.
+
+Fixpoint read_tree (fuel : nat) (who t : Z) (p : path) (link : option Z) (root : bool) (s : tsd) : wire :=
   match fuel with
   | O => []
   | S f =>
-    let rd := delta_readable t s in
-    let me := obs_line who t p (valid s) (modified t s) (lmt_of s) (value_of s) rd (if rd then delta_mask s else 0) in
+    let me := node_line who t p link root s in
     match s with
     | Leaf _ _ => [me]
-    | Fix _ kids =>
-      me :: concat (map (fun ic => read_tree f who t (p ++ [Z.of_nat (fst ic)]) (snd ic)) (combine (seq 0 (length kids)) kids))
+    | Fix _ _ _ kids =>
+      me :: concat (map (fun ic => read_tree f who t (p ++ [Z.of_nat (fst ic)]) link false (snd ic)) (combine (seq 0 (length kids)) kids))
     | Dict _ _ kids =>
       me :: ([24; who; t; Z.of_nat (length p)] ++ p ++ map fst kids)
-         :: concat (map (fun kc => read_tree f who t (p ++ [fst kc]) (snd kc)) kids)
+         :: concat (map (fun kc => read_tree f who t (p ++ [fst kc]) link false (snd kc)) kids)
     end
   end.
 
@@ -456,26 +491,15 @@ Fixpoint shape_depth (s : shape) : nat :=
 Fixpoint depth (s : tsd) : nat :=
   match s with
   | Leaf _ _ => 1
-  | Fix _ kids => S (fold_right (fun c a => Nat.max (depth c) a) 0%nat kids)
+  | Fix _ _ _ kids => S (fold_right (fun c a => Nat.max (depth c) a) 0%nat kids)
   | Dict _ e kids => S (fold_right (fun c a => Nat.max (depth (snd c)) a) (shape_depth e) kids)
   end.
 
-(* a consumer's read: the root position blends the link's tracking, children read the data *)
 Definition read_cons (who t : Z) (c : cons) (s : tsd) : wire :=
   if negb (c_bound c) then [[26; who; t]] else
   match get (c_path c) s with
   | None => [[26; who; t]]
-  | Some x =>
-    let p := c_path c in
-    let sampled := in_delta_sampled c x in
-    let rd := sampled || delta_readable t x in
-    let dv := if sampled then (match x with Leaf _ v => v | Fix _ _ => -2 | Dict _ _ _ => -1 end)
-              else if rd then delta_mask x else 0 in
-    let me := obs_line who t p (valid x) (in_modified t c x) (in_lmt c x) (value_of x) rd dv in
-    match read_tree (depth x + 1) who t p x with
-    | _ :: rest => me :: rest
-    | [] => [me]
-    end
+  | Some x => read_tree (depth x + 1) who t (c_path c) (Some (c_link c)) true x
   end.
 
 (* ------------------------------------------------------------------ the simulated run *)
@@ -521,7 +545,7 @@ Fixpoint cycles (fuel : nat) (t e : Z) (h : hist) (m : sim) : sim :=
     let m1 := apply_ops t h m in
     let n := Z.of_nat (length (m_cons m1)) in
     let '(cs', w) := sinks t 1 n (m_cons m1) (m_cons m1) tree0 (m_tree m1) in
-    let rep := read_tree (depth (m_tree m1) + 1) 0 t [] (m_tree m1) ++ report t 1 cs' (m_tree m1) in
+    let rep := read_tree (depth (m_tree m1) + 1) 0 t [] None true (m_tree m1) ++ report t 1 cs' (m_tree m1) in
     cycles f (t + 1) e h (mkSim (m_tree m1) cs' (rev rep ++ rev w ++ m_log m1))
   end.
 
